@@ -67,7 +67,14 @@ pub fn gen_tokens(u: &mut Unstructured, kind: Kind, max: usize) -> arbitrary::Re
                 let len = 1 + u.below(3)? as usize;
                 let mut s = String::new();
                 for _ in 0..len {
-                    s.push(if u.coin(1, 4)? { random_non_ascii(u)? } else { *u.choose(LIT_CHARS)? });
+                    s.push(if u.coin(1, 40)? {
+                        // control characters and noncharacters are literal characters too
+                        *u.choose(&['\u{0}', '\u{1}', '\t', '\u{7f}', '\u{85}', '\u{fdd0}', '\u{ffff}', '\u{feff}'])?
+                    } else if u.coin(1, 4)? {
+                        random_non_ascii(u)?
+                    } else {
+                        *u.choose(LIT_CHARS)?
+                    });
                 }
                 Tok::Lit(s)
             }
@@ -234,6 +241,15 @@ impl Prop for Format {
             Err(p) => fail("c11.format_panic", format!("{:?}::format({:?}) = {:?}", c.kind, pattern, want), p.short()),
             Ok(got) => {
                 if got != want {
+                    // known finding: the tokenizer uses U+0000 as its in-band marker for an escaped
+                    // apostrophe, so a literal U+0000 in a pattern comes out as an apostrophe
+                    if pattern.contains('\u{0}') && got == want.replace('\u{0}', "'") {
+                        return fail(
+                            "c11.nul_literal_rendered_as_apostrophe",
+                            format!("{:?} {} [{}] .format({:?}) = {:?}", c.kind, fmt_instant(c.v.i()), c.off, pattern, want),
+                            format!("{:?}", got),
+                        );
+                    }
                     // name the first field that differs, for the signature
                     let mut sig = "c11.wrong_output".to_string();
                     for t in &c.toks {
@@ -406,6 +422,9 @@ fn check_local(c: &LocalCase, cx: &mut Cx) -> Verdict {
             let want_getters = if c.kind == Kind::Time { (0, 0, 0, f.hour, f.minute, f.second, f.subsec) } else { (f.year as i32, f.month, f.dom, f.hour, f.minute, f.second, f.subsec) };
             if getters != want_getters || !is_local {
                 return fail("c11.local_getters", format!("{}: getters (y, m, d, h, m, s, ns) = {:?}", what, want_getters), format!("{:?} (still Offset::Local: {})", getters, is_local));
+            }
+            if got != want && pattern.contains('\u{0}') && got == want.replace('\u{0}', "'") {
+                return fail("c11.nul_literal_rendered_as_apostrophe", format!("{} .format({:?}) = {:?}", what, pattern, want), format!("{:?}", got));
             }
             if got != want {
                 return fail("c11.local_wrong_output", format!("{} .format({:?}) = {:?}", what, pattern, want), format!("{:?}", got));
